@@ -126,13 +126,15 @@ def run(eng: Engine, ck: Check):
     # append in the loop that builds the list
     kept: list[tuple[str, list[tuple[ast.AST, bool]]]] = []
     for n in walk_local(srp.node):
+        # (what is tested must be what is EMITTED: `part.rstrip() for part in .. if part not in ('.', '..')` tests the raw component and
+        # emits another string -- '.. ' passes the test and comes out as '..')
         if isinstance(n, (ast.ListComp, ast.GeneratorExp)) and len(n.generators) == 1 and isinstance(n.generators[0].target, ast.Name) and \
-                unparse(n.elt) == n.generators[0].target.id and any(call_name(x) == 'split' for x in ast.walk(n.generators[0].iter)):
-            kept.append((n.generators[0].target.id, [a_ for i_ in n.generators[0].ifs for a_ in split_conj(i_, True)]))
-        if isinstance(n, ast.Call) and call_name(n) == 'append' and len(n.args) == 1 and isinstance(n.args[0], ast.Name):
-            lp_ = next((a_ for a_ in ancestors(n) if isinstance(a_, ast.For) and isinstance(a_.target, ast.Name) and a_.target.id == n.args[0].id), None)
+                mentions_name(n.elt, n.generators[0].target.id) and any(call_name(x) == 'split' for x in ast.walk(n.generators[0].iter)):
+            kept.append((unparse(n.elt), [a_ for i_ in n.generators[0].ifs for a_ in split_conj(i_, True)]))
+        if isinstance(n, ast.Call) and call_name(n) == 'append' and len(n.args) == 1:
+            lp_ = next((a_ for a_ in ancestors(n) if isinstance(a_, ast.For) and isinstance(a_.target, ast.Name) and mentions_name(n.args[0], a_.target.id)), None)
             if lp_ is not None and any(call_name(x) == 'split' for x in ast.walk(expand_aliases(srp, lp_.iter))):
-                kept.append((lp_.target.id, [(e_, pol_) for e_, pol_, _ in eng.guards_at(srp, n)]))
+                kept.append((unparse(n.args[0]), [(e_, pol_) for e_, pol_, _ in eng.guards_at(srp, n)]))
     ck.floor('R-C09-TAINT.split_keeps', len(kept), 1)
 
     def excluded_literals(v: str, atoms) -> set:
@@ -152,8 +154,9 @@ def run(eng: Engine, ck: Check):
                 out |= {x.value for x in ast.walk(rhs) if isinstance(x, ast.Constant)}
         return out
     split_clean = all(BAD <= excluded_literals(v_, at_) for v_, at_ in kept)
-    drops_empty = all(any(pol_ and isinstance(e_, ast.Name) and e_.id == v_ for e_, pol_ in at_) or '' in excluded_literals(v_, at_) for v_, at_ in kept)
-    ck.ob('R-C09-TAINT', srp, srp.node, 'split_remote_path drops empty components (repeated / leading / trailing separators)', drops_empty, '', construct='split drops empty')
+    drops_empty = all(any(pol_ and unparse(e_) == v_ for e_, pol_ in at_) or '' in excluded_literals(v_, at_) for v_, at_ in kept)
+    ck.ob('R-C09-TAINT', srp, srp.node, 'split_remote_path drops empty components (repeated / leading / trailing separators)', drops_empty,
+          f'kept components {[v_ for v_, _ in kept]}: no truth test on the emitted string itself (a test on the raw component does not cover what is emitted)', construct='split drops empty')
     sep_pat = const_value(repo, repo.module('constants.py'), 'PATH_SEPERATOR_PATTERN')
     ck.ob('R-C09-TAINT', 'constants.py:PATH_SEPERATOR_PATTERN', 'src/aioslsk/constants.py', 'remote paths are split on both \\ and /', sep_pat is not None and
           const(sep_pat.args[0]) == '[\\\\/]+', unparse(sep_pat), construct='separator pattern')
